@@ -168,3 +168,27 @@ def who_verifies(ctx):
         ctx.check("who:signature-check:%s:%s" % (what, cfg.short(rk)), ok,
                   why + " — a change rejected for its signature before evaluation is skipped by the loader while the changes that depend on it survive",
                   rules.where(fn, bb), fn=fn)
+
+
+def apply_after_signature(ctx, prefix="evaluate"):
+    """Shared with C04: in the prune closure of ChangeGraph::evaluate an entry reaches `Evaluate::apply` only behind
+    `entry.valid_signatures()`.  C04 depends on it because `Identity::action` trusts `op.author`, which is the key the
+    commit *claims* to be signed with."""
+    db = ctx.db
+    ev = db.one(r"^radicle_cob::change_graph::ChangeGraph::evaluate$")
+    if ev is None:
+        ctx.violated("anchor:evaluate", "ChangeGraph::evaluate not found (anchor missing)")
+        return
+    clos = [f for f in db.closures_of.get(ev["n"], []) if any((c.get("dn") or "").endswith("Evaluate::apply") for _, _, c in db.calls(f))]
+    ctx.floor("%s:closure" % prefix, len(clos), 1, "prune closure calling Evaluate::apply")
+    for c in clos:
+        applies = rules.call_blocks(c, r"Evaluate::apply$")
+        ok3, a3, bad3 = rules.dom_check(db, c, applies, rules.is_bool(r"valid_signatures$", True))
+        ctx.check("%s:apply-after-signature" % prefix, bool(ok3 and a3 and applies),
+                  "an entry is applied to the object only after its signatures were checked (an entry with a forged author must not reach the "
+                  "object's `op`, which trusts the author named by the commit)", rules.where(c), fn=c)
+    root = db.one(r"^radicle_cob::change_graph::ChangeGraph::evaluate$")
+    # the root entry is checked before `init`
+    inits = rules.call_blocks(root, r"Evaluate::init$")
+    okr, ar, badr = rules.dom_check(db, root, inits, rules.is_bool(r"valid_signatures$", True))
+    ctx.check("%s:init-after-signature" % prefix, bool(okr and ar and inits), "the root entry initialises the object only after its signatures were checked", rules.where(root), fn=root)
